@@ -153,3 +153,126 @@ func c06ZooJudge(name string, chunk int) (got, want string) {
 	}
 	return got, want
 }
+
+// ---- histories on ONE message object (round 13)
+//
+// A caller may keep a message, marshal it, change something INSIDE it and marshal it again. The statement
+// is about every message at the moment of the call, so the second frame must be the encoding of the message
+// as it is then - whatever sizes the protobuf runtime cached in the object during the first call. Each entry:
+// a message with a NESTED message (repeated element, map value, oneof member, two levels), given by its wire
+// bytes before (Raw1) and after (Raw2) a mutation that changes the nested message's encoded length; the
+// sizing call that precedes the mutation is pbcmpl.Marshal, pbcmpl.Size, proto.Size or none; no sizing call
+// is made between the mutation and the judged Marshal.
+
+type c06MutEntry struct {
+	Name   string
+	New    func() proto.Message
+	Raw1   []byte
+	Mutate func(m proto.Message)
+	Raw2   []byte
+}
+
+func c06MutList() []c06MutEntry {
+	long := "abcdefghij"
+	sv := func(s string) *structpb.Value {
+		return &structpb.Value{Kind: &structpb.Value_StringValue{StringValue: s}}
+	}
+	val := func(s string) []byte { return append([]byte{0x1a, byte(len(s))}, s...) } // Value{string_value: s}
+	wrap := func(tag byte, b []byte) []byte { return append([]byte{tag, byte(len(b))}, b...) }
+	entry := func(v []byte) []byte { return append([]byte{0x0a, 1, 'k'}, wrap(0x12, v)...) } // map entry "k" -> v
+	return []c06MutEntry{
+		{"ListValue/element-field-changed-in-place", func() proto.Message { return &structpb.ListValue{} }, wrap(0x0a, val("a")),
+			func(m proto.Message) {
+				m.(*structpb.ListValue).Values[0].Kind = &structpb.Value_StringValue{StringValue: long}
+			}, wrap(0x0a, val(long))},
+		{"ListValue/element-replaced", func() proto.Message { return &structpb.ListValue{} }, wrap(0x0a, val("a")),
+			func(m proto.Message) { m.(*structpb.ListValue).Values[0] = sv(long) }, wrap(0x0a, val(long))},
+		{"ListValue/element-shrinks", func() proto.Message { return &structpb.ListValue{} }, wrap(0x0a, val(long)),
+			func(m proto.Message) {
+				m.(*structpb.ListValue).Values[0].Kind = &structpb.Value_StringValue{StringValue: ""}
+			}, wrap(0x0a, val(""))},
+		{"ListValue/second-element-appended", func() proto.Message { return &structpb.ListValue{} }, wrap(0x0a, val("a")),
+			func(m proto.Message) { l := m.(*structpb.ListValue); l.Values = append(l.Values, sv(long)) }, append(wrap(0x0a, val("a")), wrap(0x0a, val(long))...)},
+		{"Struct/map-value-changed-in-place", func() proto.Message { return &structpb.Struct{} }, wrap(0x0a, entry(val("a"))),
+			func(m proto.Message) {
+				m.(*structpb.Struct).Fields["k"].Kind = &structpb.Value_StringValue{StringValue: long}
+			}, wrap(0x0a, entry(val(long)))},
+		{"Value/list-two-levels-down-changed-in-place", func() proto.Message { return &structpb.Value{} }, wrap(0x32, wrap(0x0a, val("a"))),
+			func(m proto.Message) {
+				m.(*structpb.Value).Kind.(*structpb.Value_ListValue).ListValue.Values[0].Kind = &structpb.Value_StringValue{StringValue: long}
+			}, wrap(0x32, wrap(0x0a, val(long)))},
+		{"Value/struct-member-replaced", func() proto.Message { return &structpb.Value{} }, wrap(0x2a, wrap(0x0a, entry(val("a")))),
+			func(m proto.Message) {
+				m.(*structpb.Value).Kind.(*structpb.Value_StructValue).StructValue.Fields["k"] = sv(long)
+			}, wrap(0x2a, wrap(0x0a, entry(val(long))))},
+	}
+}
+
+var c06MutSizers = []string{"pbcmpl.Marshal", "pbcmpl.Size", "proto.Size", "none"}
+
+// c06MutJudge runs one history: decode Raw1, sizing call, mutate, Marshal, read back.
+func c06MutJudge(name, sizer string) (got, want string) {
+	var e *c06MutEntry
+	for _, x := range c06MutList() {
+		if x.Name == name {
+			x := x
+			e = &x
+		}
+	}
+	if e == nil {
+		return "unknown history " + name, ""
+	}
+	defer func() {
+		if x := recover(); x != nil {
+			if s, ok := x.(string); ok && len(s) > 8 && s[:8] == "harness:" {
+				panic(x)
+			}
+			got += fmt.Sprint(" panic: ", x)
+		}
+	}()
+	// self-check with fresh objects: both byte strings are canonical, and the mutation leads from one to the other
+	c06ZooSelfCheck(c06ZooEntry{Name: name + "/before", New: e.New, Raw: e.Raw1})
+	c06ZooSelfCheck(c06ZooEntry{Name: name + "/after", New: e.New, Raw: e.Raw2})
+	{
+		m := e.New()
+		proto.Unmarshal(e.Raw1, m)
+		e.Mutate(m)
+		fresh := e.New()
+		proto.Unmarshal(e.Raw2, fresh)
+		if !proto.Equal(m, fresh) {
+			panic("harness: mutation of " + name + " does not lead to the message of Raw2")
+		}
+	}
+	frame := func(raw []byte) []byte {
+		h := make([]byte, 32)
+		copy(h, "1.0.0")
+		binary.LittleEndian.PutUint64(h[16:], 32)
+		binary.LittleEndian.PutUint64(h[24:], uint64(len(raw)))
+		return append(h, raw...)
+	}
+	src := e.New()
+	proto.Unmarshal(e.Raw1, src)
+	w := &c06CountWriter{}
+	w1, w2 := frame(e.Raw1), frame(e.Raw2)
+	switch sizer {
+	case "pbcmpl.Marshal":
+		n, err := pbcmpl.Marshal(w, src)
+		got += fmt.Sprintf("first n=%d err=%s written=%s | ", n, errName(err), digest(w.buf.Bytes()))
+		want += fmt.Sprintf("first n=%d err=nil written=%s | ", len(w1), digest(w1))
+		w.buf.Reset()
+	case "pbcmpl.Size":
+		got += fmt.Sprintf("Size=%d | ", pbcmpl.Size(src))
+		want += fmt.Sprintf("Size=%d | ", len(w1))
+	case "proto.Size":
+		proto.Size(src)
+	}
+	e.Mutate(src)
+	n, err := pbcmpl.Marshal(w, src)
+	got += fmt.Sprintf("after the change n=%d err=%s written=%s Size=%d", n, errName(err), digest(w.buf.Bytes()), pbcmpl.Size(src))
+	want += fmt.Sprintf("after the change n=%d err=nil written=%s Size=%d", len(w2), digest(w2), len(w2))
+	t := e.New()
+	n2, _, err2 := pbcmpl.Unmarshal(bytes.NewReader(w.buf.Bytes()), t)
+	got += fmt.Sprintf(" | back n=%d err=%s equal=%v", n2, errName(err2), proto.Equal(src, t))
+	want += fmt.Sprintf(" | back n=%d err=nil equal=true", len(w2))
+	return got, want
+}
